@@ -1912,6 +1912,26 @@ func (m *repoManager) merge(parents []dvid.UUID, note string, mt MergeType) (dvi
 	}
 	m.repoMutex.RUnlock()
 
+	// Validate all parents before creating the child so a refused merge leaves no trace.
+	for _, parent := range parents {
+		v, err := m.versionFromUUID(parent)
+		if err != nil {
+			return dvid.NilUUID, err
+		}
+		r.RLock()
+		node, found := r.dag.nodes[v]
+		r.RUnlock()
+		if !found {
+			return dvid.NilUUID, ErrInvalidVersion
+		}
+		node.RLock()
+		locked := node.locked
+		node.RUnlock()
+		if !locked {
+			return dvid.NilUUID, ErrBranchUnlockedNode
+		}
+	}
+
 	// Add the child node.  Since it's new and unavailable, no need to lock it.
 	childUUID, childV, err := m.newUUID(nil)
 	if err != nil {
